@@ -390,7 +390,76 @@ func runTasks() {
 	family("task/accept(json roundtrip: all pairs over 7 field alphabets, all 13 task types)", n, n)
 }
 
+// allTriples: the first tuple, then every triple of fields over their alphabets with the other
+// fields at their first value.
+func allTriples(sizes []int, fn func(ix []int)) int64 {
+	seen := map[string]bool{}
+	var n int64
+	ix := make([]int, len(sizes))
+	for a := 0; a < len(sizes); a++ {
+		for b := a + 1; b < len(sizes); b++ {
+			for c := b + 1; c < len(sizes); c++ {
+				for i := 0; i < sizes[a]; i++ {
+					for j := 0; j < sizes[b]; j++ {
+						for k := 0; k < sizes[c]; k++ {
+							for x := range ix {
+								ix[x] = 0
+							}
+							ix[a], ix[b], ix[c] = i, j, k
+							key := fmt.Sprint(ix)
+							if !seen[key] {
+								seen[key] = true
+								n++
+								fn(append([]int{}, ix...))
+							}
+						}
+					}
+				}
+			}
+		}
+	}
+	return n
+}
+
+// runRelations: fields that could be validated against each other. All triples over the field
+// alphabets of task and time profile, and the relation between a date range and the weekday set:
+// every range of 0..14 days starting on each day of one week x 17 weekday sets (none, all, each
+// single day, all but each day) - whatever the relation, the library's own encoding decodes back.
+func runRelations() {
+	taskTypes := []int{8, 0, 1, 12}
+	ts := []int{len(taskTypes), 3, len(dateAlphabet), len(dateAlphabet), len(weekdayAlphabet), len(timeAlphabet), 3}
+	n := allTriples(ts, func(ix []int) {
+		checkTask(taskCase{Task: taskTypes[ix[0]], Door: byteAlphabet[ix[1]], From: dateAlphabet[ix[2]], To: dateAlphabet[ix[3]],
+			Weekdays: weekdayAlphabet[ix[4]], Start: timeAlphabet[ix[5]], Cards: byteAlphabet[ix[6]]})
+	})
+	ps := []int{3, 3, len(dateAlphabet), len(dateAlphabet), len(weekdayAlphabet), len(segmentAlphabet)}
+	n += allTriples(ps, func(ix []int) {
+		checkProfile(profileCase{ID: byteAlphabet[ix[0]], Linked: byteAlphabet[ix[1]], From: dateAlphabet[ix[2]], To: dateAlphabet[ix[3]],
+			Weekdays: weekdayAlphabet[ix[4]], Segments: segmentAlphabet[ix[5]]})
+	})
+	sets := []weekdaysCase{{Shape: [7]int{}}, {Shape: [7]int{2, 2, 2, 2, 2, 2, 2}}}
+	for d := 0; d < 7; d++ {
+		one, but := weekdaysCase{}, weekdaysCase{Shape: [7]int{2, 2, 2, 2, 2, 2, 2}}
+		one.Shape[d], but.Shape[d] = 2, 1
+		sets = append(sets, one, but)
+	}
+	for start := 0; start < 7; start++ {
+		for length := -1; length <= 14; length++ {
+			f := time.Date(2024, 1, 1+start, 12, 0, 0, 0, time.UTC)
+			t := f.AddDate(0, 0, length)
+			from, to := [3]int{f.Year(), int(f.Month()), f.Day()}, [3]int{t.Year(), int(t.Month()), t.Day()}
+			for _, w := range sets {
+				checkTask(taskCase{Task: 8, Door: 3, From: from, To: to, Weekdays: w, Start: [2]int{8, 30}, Cards: 2})
+				checkProfile(profileCase{ID: 29, Linked: 3, From: from, To: to, Weekdays: w, Segments: segmentAlphabet[0]})
+				n += 2
+			}
+		}
+	}
+	family("task+profile/accept(json roundtrip: all triples over the field alphabets; date ranges of -1..14 days x 16 weekday sets)", n, n)
+}
+
 func runComposites() {
+	runRelations()
 	runWeekdays()
 	runSegments()
 	runCards()
